@@ -174,8 +174,8 @@ def fold_cones(ck: Checker, R: str):
                     want_outs = [l for l in inner if l in c._outputs or any(u not in cone for u in c._gate_to_users.get(l, []))]
                     if size != want_size:
                         msg = f'cone {inner} over leaves {leaves}: size {size}, but it has {want_size} gates other than NOT (the search budget is size - 1)'
-                    elif s_outs != want_outs:
-                        msg = f'cone {inner} over leaves {leaves}: outputs {s_outs}, expected the gates read from outside or marked as circuit outputs {want_outs}'
+                    elif not set(want_outs) <= set(s_outs) or not set(s_outs) <= set(inner) or len(set(s_outs)) != len(s_outs):
+                        msg = f'cone {inner} over leaves {leaves}: outputs {s_outs} must name, once each, inner gates including every gate read from outside or marked as circuit output {want_outs}'
                     else:
                         n = len(leaves)
                         for r, bits in enumerate(itertools.product((False, True), repeat=n)):
@@ -195,6 +195,6 @@ def fold_cones(ck: Checker, R: str):
             break
     ck.need(n_cones >= 20 or probs, f'only {n_cones} cones were extracted from {n_circ} model circuits (family too small)')
     ck.check(not probs, R, m, m.func('_get_subcircuits'), f'cone extraction folded over {n_circ} model circuits with every k-feasible cut ({n_cones} cones): closed cone in topological order, size = gates other than NOT, '
-             'outputs = gates read from outside or circuit outputs, and every pattern equals the gate\'s function of the leaves (leaves most significant first)', '; '.join(probs[:2]), construct='_get_subcircuits over the circuit family')
+             'outputs include every gate read from outside and every circuit output, and every pattern equals the gate\'s function of the leaves (leaves most significant first)', '; '.join(probs[:2]), construct='_get_subcircuits over the circuit family')
     ck.notes['cones_folded'] = n_cones
     ck.assume('cone extraction is folded over a bounded family of model circuits (<= 4 inputs, <= 6 gates, supported gate types incl. n-ary) with untruncated k-feasible cut families; cut truncation by the enumerator and larger cones are not decided')
